@@ -180,9 +180,47 @@ def gen_plan_c19(rng: Rng, tier: str, faulty: bool) -> Dict[str, Any]:
     return {"format": 1, "profile": NAME, "kind": "c19", "world": world, "sessions": sessions}
 
 
-def gen_plan(rng: Rng, tier: str, kind: str, faulty: bool = False) -> Dict[str, Any]:
+def gen_plan_c19_enum(rng: Rng, tier: str, what: str) -> Dict[str, Any]:
+    """Base plan of a fault-point enumeration: the fault is placed by the runner at every write
+    call of the first save (what == "save") or every read call of the first restore."""
+    world = worldgen.gen_world(rng.fork("world"), "cp")
+    inc = rng.chance(0.6)
+    n_ranks = len(world["files"])
+    analyze = gen_analyze(rng, world, inc)
+    rank = analyze["rank"]
+    z_a = rng.below(len(driver.HASH_SEEDS))
+    z_b = (z_a + 1 + rng.below(len(driver.HASH_SEEDS) - 1)) % len(driver.HASH_SEEDS)
+    out = rng.choice(["cp/g", "deep/er/dir/g"])
+    load = _load_op(rng, inc)
+    if what == "save":
+        a_ops = [load, analyze, {"op": "cp_breakdown", "graph": 0},
+                 {"op": "cp_save", "graph": 0, "out_dir": out},      # <- target: op 3 of session 0
+                 {"op": "cp_save", "graph": 0, "out_dir": out}]
+        b_ops = [dict(load), dict(analyze), {"op": "cp_breakdown", "graph": 0},
+                 {"op": "cp_save", "graph": 0, "out_dir": out},
+                 {"op": "cp_restore", "zip": out + ".zip", "rank": rank},
+                 {"op": "cp_breakdown", "graph": 1}, {"op": "cp_recompute", "graph": 1}]
+        target = {"session": 0, "op": 3, "mode": "w"}
+        kinds = ["write_enospc", "kill"]
+    else:
+        a_ops = [load, analyze, {"op": "cp_breakdown", "graph": 0}, {"op": "cp_save", "graph": 0, "out_dir": out}]
+        b_ops = [dict(load),
+                 {"op": "cp_restore", "zip": out + ".zip", "rank": rank},   # <- target: op 1 of session 1
+                 {"op": "cp_restore", "zip": out + ".zip", "rank": rank},
+                 {"op": "cp_breakdown", "graph": 1}, {"op": "cp_recompute", "graph": 1}]
+        target = {"session": 1, "op": 1, "mode": "r"}
+        kinds = ["read_eio"]
+    sessions = [{"zygote": z_a, "env": loader.gen_env(rng.fork("ea"), n_ranks, False), "pre": [], "ops": a_ops},
+                {"zygote": z_b, "env": loader.gen_env(rng.fork("eb"), n_ranks, False), "pre": [], "ops": b_ops}]
+    return {"format": 1, "profile": NAME, "kind": "c19", "world": world, "sessions": sessions,
+            "enumerate": {"target": target, "kinds": kinds}}
+
+
+def gen_plan(rng: Rng, tier: str, kind: str, faulty: bool = False, enum: Optional[str] = None) -> Dict[str, Any]:
     if kind == "c09":
         return gen_plan_c09(rng, tier)
+    if enum:
+        return gen_plan_c19_enum(rng, tier, enum)
     return gen_plan_c19(rng, tier, faulty)
 
 
@@ -382,7 +420,7 @@ def check(plan: Dict[str, Any], execution: Dict[str, Any], props: Optional[Set[s
                             res.violate("C19", "summary-differs", {}, si, r["i"])
                 elif kind == "cp_save":
                     z = o["out_dir"] + ".zip"
-                    archives[z] = dict(g["obs"]) if g.get("obs") else None
+                    archives[z] = obs.get("graph_obs") or (dict(g["obs"]) if g.get("obs") else None)
                     saved_total[z] = g.get("total")
                     bd_of_saved[z] = g.get("bd")
                     hashseed_of_save[z] = sx.get("hashseed")
